@@ -4,6 +4,9 @@ import json, subprocess, sys
 
 CHECKS = {
  # id: (category, technique, text, note, design_ref)
+ "C17": ("exploration", "exhaustive operation-sequence enumeration against an overlay-map reference model on every backend",
+         "Every operation sequence over a 9-operation alphabet up to length 5 (quick) / 7 (thorough) is executed on MemDB, CacheDB over MemDB/CacheDB/Bolt and BoltChainDB, comparing Get of every key and a full Iter after each operation and the durable image at the end with the model; plus long PRNG sequences. Exhaustive within the stated bound, sampled beyond it.",
+         "Trusts bbolt's transaction semantics; bucket handles are re-fetched per operation as DBStore does; keys and values non-empty.", "§3 C17"),
  "C20": ("exploration", "reference-model monitoring over sampled and structurally enumerated inputs",
          "Held on the sampled 128-bit entropies and on complete sweeps of every word at sampled positions against an independent BIP-39 reference anchored on the published vectors; pure functions, so sampling plus structural enumeration is the right level.",
          "Trusts crypto/sha256, blake2b, ed25519 and the published BIP-39 vectors; hook H2 exposes the unexported encoder and word list.", "§3 C20"),
@@ -20,7 +23,7 @@ def main():
       "hooks": {
         "guard": "verif",
         "enable": "go build tag: go1.26 build -race -tags verif (the harness module replaces go.sia.tech/coreutils with /repo)",
-        "baseline_off_cmd": "cd /repo && GOFLAGS=-mod=mod GOPROXY=off GOSUMDB=off go test -vet=off -count=1 -timeout 25m ./...",
+        "baseline_off_cmd": "/verif/baseline_off.sh",
         "source_commits": src,
         "add_only": True,
       },
